@@ -124,6 +124,11 @@ def call_function(X, ins, key, argv, argops):
     c = V.contracts['funcs'].get(key)
     if c is not None and 'inline' not in c['flags']:
         return contract_call(X, ins, key, c, argv)
+    if c is not None:
+        # flag inline: the body is executed at the call site, but the function has a contract of its own that a
+        # registered check verifies - it belongs to the dependencies of the caller
+        V.inlined_contracts = getattr(V, 'inlined_contracts', set())
+        V.inlined_contracts.add(key)
     ext = V.externals.get(key)
     if ext is not None:
         res = ext(X, ins, argv)
@@ -132,10 +137,21 @@ def call_function(X, ins, key, argv, argops):
         return
     if key in prog.funcs and prog.funcs[key]['blocks']:
         fn = prog.funcs[key]
-        if X.depth >= MAX_INLINE_DEPTH:
-            raise OutOfSubset('inline depth exceeded at ' + key)
-        if key in X.V.inline_stack:
-            raise OutOfSubset('recursive call without contract: ' + key)
+        from .symex import cfg_of
+        if X.depth >= MAX_INLINE_DEPTH or key in X.V.inline_stack or cfg_of(prog, key)['loops']:
+            # a callee without contract that cannot be executed in place (it loops, recurses, or sits too deep): it is
+            # over-approximated - everything its body may write is havocked, its results are arbitrary well-typed
+            # values, nothing is assumed about it; its own run-time safety is not checked here (stated in the notes).
+            # A harmless refactoring that moves code into a new helper therefore does not stop the verification of the
+            # caller; clauses of the caller that needed facts about the moved code fail as undischarged obligations.
+            from .modset import func_modset
+            for hk_ in sorted(func_modset(V, key, [X.fnkey, key]), key=str):
+                nv_ = V.fresh_heap_const(hk_, X.tag + 'nocontract')
+                if hk_[0] == 'alloc':
+                    X.hyp(nv_ >= X.heap.get(hk_))
+                X.heap.set(hk_, nv_)
+            V.notes.append('callee without contract that cannot be inlined (loops / recursion): %s - effects havocked, results arbitrary, its own safety not checked' % key)
+            return generic_external(X, ins, key)
         from .symex import Exec
         sub = Exec(V, key, X.depth + 1)
         sub.localcells = X.localcells
